@@ -177,6 +177,8 @@ class Codec:
                 next_msg = frame_end + 1
 
         encoded_msg = rawmsg[valid_idx : next_msg + valid_idx]
+        # a malformed frame is dropped alone: what follows it in the buffer is kept
+        bad_frame_length = valid_idx + next_msg
 
         msg = msg[:next_msg].split(self.SOH)
         if not msg[-1]:
@@ -197,19 +199,19 @@ class Codec:
                 % (value, self.protocol.beginstring)
             )
             assert silent, "protocol beginstring mismatch"
-            return (None, len(rawmsg), None)
+            return (None, bad_frame_length, None)
 
         toks = msg[1].split("=", 1)
         if len(toks) != 2:
             assert silent, f"BodyLength split error {msg}"
-            return (None, len(rawmsg), None)
+            return (None, bad_frame_length, None)
         tag, value = toks
 
         msg_length = len(msg[0]) + len(msg[1]) + len("10=000") + 3
         if tag != FTag.BodyLength:
             logging.error(f"*** BodyLength missing or not 2nd field *** [{tag}]: {msg}")
             assert silent, "2nd tag must be BodyLength"
-            return (None, len(rawmsg), None)
+            return (None, bad_frame_length, None)
         else:
             try:
                 body_length = int(value)
@@ -217,7 +219,7 @@ class Codec:
                 body_length = -1
             if body_length < 0:
                 assert silent, f"BodyLength is not a length {msg}"
-                return (None, len(rawmsg), None)
+                return (None, bad_frame_length, None)
             msg_length += body_length
 
         # message looks incomplete
@@ -237,13 +239,13 @@ class Codec:
             toks = m.split("=", 1)
             if len(toks) != 2:
                 assert silent, f"incomplete tag {m}"
-                return (None, len(rawmsg), None)
+                return (None, bad_frame_length, None)
             tag, value = toks
             try:
                 int(tag)
             except ValueError:
                 assert silent, f"tag is not a number {m}"
-                return (None, len(rawmsg), None)
+                return (None, bad_frame_length, None)
 
             if tag == FTag.CheckSum:
                 cheksum_base = self.SOH.join(msg[:-1])
